@@ -631,14 +631,17 @@ CHECKS = {
                           'FastPasta.C09.table_ok', 'FastPasta.C09.step_ok',
                           # tie by translation: the model's step function = the function generated from the Rust source on this run
                           'FastPasta.C09.fsmStep_eq_src', 'FastPasta.C09.fsmAdvance_eq_src', 'FastPasta.C09.ids_eq_src', 'FastPasta.C09.initial_eq_src',
-                          'FastPasta.C09.src_table']),
+                          'FastPasta.C09.src_table', 'FastPasta.C09.fsmAdvance_eq_src_flags']),
     'C10': dict(modules=['FastPasta.Props.C10'], needs_harness=True, corr='rdh_rules', run=run_c10,
                 theorems=['FastPasta.C10.sanity_iff', 'FastPasta.C10.sanity_ignores_reserved', 'FastPasta.C10.running_iff',
                           'FastPasta.C10.step_inv', 'FastPasta.C10.expectedPage_snoc', 'FastPasta.C10.run_spec']),
     'C11': dict(modules=['FastPasta.Props.C11'], needs_harness=True, corr='word_sanity', run=run_c11,
                 theorems=['FastPasta.C11.ihw_sane_iff', 'FastPasta.C11.tdh_sane_iff', 'FastPasta.C11.tdt_sane_iff', 'FastPasta.C11.ddw0_sane_iff',
                           'FastPasta.C11.data_reported_iff', 'FastPasta.C11.data_reported_sanity_iff', 'FastPasta.C11.valid_id_iff',
-                          'FastPasta.C11.fsm_data_id_eq', 'FastPasta.C11.ob_lane_eq']),
+                          'FastPasta.C11.fsm_data_id_eq', 'FastPasta.C11.ob_lane_eq',
+                          # tie by translation (tools/rs2lean.py -> Spec/WordsSrcGen.lean): the same statements about the source's own functions
+                          'FastPasta.C11.ihw_src_check_iff', 'FastPasta.C11.tdh_src_check_iff', 'FastPasta.C11.tdt_src_check_iff', 'FastPasta.C11.ddw0_src_check_iff',
+                          'FastPasta.C11.data_src_checks', 'FastPasta.C11.accessors_src', 'FastPasta.C11.lanes_src']),
     'C12': dict(modules=['FastPasta.Props.C12'], needs_harness=True, corr='cutter', run=run_c12,
                 theorems=['FastPasta.C12.cut_format2', 'FastPasta.C12.cut_format0', 'FastPasta.C12.cut_overpadded',
                           'FastPasta.C12.overpadded_reported_and_reset', 'FastPasta.C12.words_examined_are_cut', 'FastPasta.C12.cut_words_len10_v2']),
